@@ -5,7 +5,7 @@ from analysis import cfg
 from analysis.sym import sym, show_in, nosite, peel, core, walk, ret_values, args_of, guards_at, atoms_at, \
     variant_facts_at, cmp_facts_at, init_value, edge_guards, symbolizer, simplify
 from analysis.pat import match, Call, Cap, ANY, Pred, Const, has, chain_names
-from rules.common import closure_of, panic_sites, dominated_by_edge, V, receiver_var, local_defs, stores_to_local
+from rules.common import state_locals, closure_of, panic_sites, dominated_by_edge, V, receiver_var, local_defs, stores_to_local
 
 WS = 'unicode::Character::is_whitespace'
 
@@ -206,6 +206,18 @@ def r3(ctx):
         nxt = [c for c in cp if c.bb in cfg.reach(b, t.bb) and cfg.dominates(b, t.bb, c.bb)]
         ctx.require(bool(nxt), b, 'space-then-char', 'after the inserted space the character itself is copied', None, t.span)
     ctx.require(len(lit) == 1, b, 'one-literal-site', 'exactly one literal push site', 'found %d literal pushes' % len(lit))
+    # the output is append-only: nothing already copied is ever taken back
+    outs = state_locals(b, r'^std::string::String$')
+    for t in b.terms('call'):
+        if not t.args or t.args[0].place is None or not b.local_ty(t.args[0].place.local).startswith('&mut std::string::String'):
+            continue
+        r_ = core(sym(b, t.args[0]))
+        if r_[0] == 'var' and len(r_) > 2 and r_[2] in outs:
+            n_ = (t.callee_res() or '').rsplit('::', 1)[-1]
+            ctx.require(n_ in ('push', 'push_str', 'reserve', 'write_str', 'write_char'), b, 'output-append-only|' + n_,
+                        'the output is only appended to (line %d: %s)' % (t.span['line'], n_),
+                        'the output string is modified by `%s` at line %d: text already copied (possibly a non-whitespace character) is removed or changed' % (
+                            n_, t.span['line']), t.span)
     for t in cp:
         v = core(sym(b, t.args[1]))
         ok = v[0] == 'field' and v[2] == 'str'
